@@ -972,6 +972,12 @@ def make_reads(rnd, genome, coverage, err, rlen):
             q = rnd.randrange(L)
             s = s[:q] + "N" + s[q + 1:]
         reads[i % 2].append(s + ":" + qual_letters(rnd, L))
+    # records that hold no k-mer at all (a failed cluster: all N; a trimmed read: three bases), somewhere
+    # inside each file: whatever follows them must still be read
+    if rnd.random() < 0.6:
+        for part in reads:
+            for junk in ("N" * rlen, rnd.choice("ACGT") * 3):
+                part.insert(rnd.randrange(0, max(1, len(part) // 2 + 1)), junk + ":" + qual_letters(rnd, len(junk)))
     return reads
 
 
@@ -2146,7 +2152,7 @@ def classify_stderr(err):
         return "novalid"
     if "overflow" in err:
         return "panic:overflow"
-    if "K-mer lengths do not match" in err or "Strand use inconsistent" in err:
+    if "K-mer lengths do not match" in err or "Strand use inconsistent" in err or "Failed to load input file" in err:
         return "refused"
     if "Invalid k-mer length" in err:
         return "badk"
@@ -2592,7 +2598,9 @@ def make_hist_cli(prop, nquick, nthorough, gen_prop=None):
         # both integer widths (the lib.rs dispatch has one branch per width)
         wide = [c for c in cases if " w=128 " in c]
         narrow = [c for c in cases if " w=64 " in c]
-        cases = wide[:n // 2] + narrow[:n - n // 2]
+        # refused operations first (a merge with a file of another k or strand mode): they are a ninth of the stream
+        refused = [c for c in cases if re.search(r"merge/[^;/ ]*/\d+/[01](;| )", c)][:max(4, n // 5)]
+        cases = refused + [c for c in (wide[:n // 2] + narrow[:n - n // 2]) if c not in refused]
         # rawdist is an in-process observer only
         cases = [re.sub(r";rawdist/\d+", "", c) for c in cases]
         model = core.run_model(ctx, cases)
